@@ -107,6 +107,17 @@ def _replay(chk, batch, both_surfaces, st, tag):
             continue
         if "err" in res and res["err"].get("stage") != "eval":
             raise vlib.ToolError(f"generated program is not valid Jsonnet: {prog['src'][:300]!r}: {res['err']}")
+        if k == "outside" and fm.get("readings") and all(x["k"] in ("ok", "err") for x in fm["readings"]):
+            # undecided between truncation and floor: the result must be the decided result of one of them
+            st.outcome["between_two_readings"] = st.outcome.get("between_two_readings", 0) + 1
+            allowed = [("err",) if x["k"] == "err" else ("ok", fu.rope_str(x["r"])) for x in fm["readings"]]
+            got = ("err",) if "err" in res else ("ok", res.get("ok"))
+            if got not in allowed:
+                chk.disagree(dict(sig, **{"class": "neither-reading"}),
+                             f"`{shown}` gives {fu.short(str(got[-1] if got[0] == 'ok' else 'an error'))}; truncating the "
+                             f"argument gives {fu.short(str(allowed[0][-1]))}, flooring it gives {fu.short(str(allowed[1][-1]))}",
+                             dict(prog, expected_one_of=[fu.short(str(a_[-1]), 200) for a_ in allowed]))
+            continue
         if k == "outside":
             chk.outside += 1
             st.outcome["outside"] += 1
@@ -177,7 +188,11 @@ def run(tier, seed):
         chk.add_tlc(res, f"{mode}: laws of Fmt.tla + case emission (stride {stride})")
         batch, nb = [], 0
         for c in res.lines("CASE"):
-            for fm in c["forms"]:
+            alts = c.get("alts") or []
+            for fi, fm in enumerate(c["forms"]):
+                if (alts and fm["exp"]["k"] == "outside" and "negative fraction" in fm["exp"].get("why", "")
+                        and all(len(a) == len(c["forms"]) and a[fi]["form"] == fm["form"] for a in alts)):
+                    fm = dict(fm, readings=[a[fi]["exp"] for a in alts])
                 batch.append((c, fm))
             if len(batch) >= BATCH:
                 _selftest(batch, st)
